@@ -3,6 +3,8 @@ problem and a final {"done": n}; flushes and os._exit()s so that a crash of lxml
 finalisation cannot take results with it."""
 from __future__ import annotations
 
+from xsdata.formats.dataclass.models.generics import DerivedElement
+
 import json
 import os
 import random
@@ -66,6 +68,10 @@ def main():
         try:
             obj = XmlParser(context=ctx, handler=handler).from_bytes(data, clazz)
             signal.alarm(0)
+            # (a root element that carries xsi:type under another name than the class's own comes back wrapped as
+            #  DerivedElement(qname, value, type): the documented way of keeping the element name - the value counts)
+            if isinstance(obj, DerivedElement) and isinstance(obj.value, clazz):
+                obj = obj.value
             if not isinstance(obj, clazz):
                 report(f"{label}: returned {type(obj).__name__} instead of {clazz.__name__}", {"data": repr(data[:400]), "handler": handler.__name__})
             elif handler is XmlEventHandler and not well_formed(data):
